@@ -1311,3 +1311,43 @@ pub fn tuple_match_index_panics(a: &[u8; 32], c: u8, p1: u8, p2: u8) -> u8 {
     // 16 * 1 + 31 = 47
     a[usize::from(16 * pre + ch)]
 }
+
+// a closure that its parent only calls: the index is in range at every call site
+pub fn local_closure_index_safe(a: &[u8; 8]) -> u8 {
+    let at = |i: usize| a[i];
+    let mut acc = at(0) ^ at(1);
+    for k in 2..8 {
+        acc ^= at(k);
+    }
+    acc
+}
+pub fn local_closure_index_panics(a: &[u8; 8]) -> u8 {
+    let at = |i: usize| a[i];
+    let mut acc = at(0) ^ at(1);
+    for k in 2..9 {
+        acc ^= at(k);
+    }
+    acc
+}
+// the same closure handed to an adapter: it can be called with anything
+pub fn local_closure_passed_on_panics(a: &[u8; 8], idx: &[usize]) -> u8 {
+    let at = |i: usize| a[i];
+    let first = at(0);
+    idx.iter().map(|&i| at(i)).fold(first, |x, y| x ^ y)
+}
+
+// `match opt { Some(i) => i, None => D }` read as `opt.unwrap_or(D)`
+pub fn match_position_default_safe(s: &[u32; 4], k: u32) -> u32 {
+    let i = match s.iter().position(|&x| x > k) {
+        Some(i) => i,
+        None => 3,
+    };
+    s[i]
+}
+pub fn match_position_default_panics(s: &[u32; 4], k: u32) -> u32 {
+    let i = match s.iter().position(|&x| x > k) {
+        Some(i) => i,
+        None => 4,
+    };
+    s[i]
+}
